@@ -242,19 +242,39 @@ impl MockClient {
 			IdK::String => IdKind::String,
 		};
 		let ping_cfg = jsonrpsee_core::client::async_client::PingConfig::new().ping_interval(std::time::Duration::from_secs(100)).inactive_limit(std::time::Duration::from_secs(1_000_000_000)).max_failures(1000);
-		let client = if cfg.ws_builder {
-			let mut builder = jsonrpsee_ws_client::WsClientBuilder::new();
-			if cfg.ping {
-				builder = builder.enable_ws_ping(ping_cfg);
+		// the builders' setters are applied in an order drawn from the configuration: none may reset another
+		fn permute<T>(v: &mut Vec<T>, mut x: u64) {
+			for i in (1..v.len()).rev() {
+				x = x.wrapping_mul(6364136223846793005).wrapping_add(1442695040888963407);
+				let j = (x >> 33) as usize % (i + 1);
+				v.swap(i, j);
 			}
-			let builder = builder.id_format(id_kind).max_concurrent_requests(cfg.max_concurrent_requests).max_buffer_capacity_per_subscription(cfg.sub_buffer.max(1));
+		}
+		let seed = 0x51_7cc1_b727_220a_95u64 ^ (cfg.sub_buffer as u64) ^ ((cfg.max_concurrent_requests as u64) << 11) ^ ((cfg.ping as u64) << 21) ^ ((cfg.mw_last as u64) << 23) ^ (((cfg.id_kind == IdK::String) as u64) << 25);
+		let (mcr, sbuf) = (cfg.max_concurrent_requests, cfg.sub_buffer.max(1));
+		let client = if cfg.ws_builder {
+			type WB = jsonrpsee_ws_client::WsClientBuilder;
+			let mut setters: Vec<Box<dyn FnOnce(WB) -> WB>> = vec![Box::new(move |b: WB| b.id_format(id_kind)), Box::new(move |b: WB| b.max_concurrent_requests(mcr)), Box::new(move |b: WB| b.max_buffer_capacity_per_subscription(sbuf))];
+			if cfg.ping {
+				setters.push(Box::new(move |b: WB| b.enable_ws_ping(ping_cfg)));
+			}
+			permute(&mut setters, seed);
+			let mut builder = jsonrpsee_ws_client::WsClientBuilder::new();
+			for s in setters {
+				builder = s(builder);
+			}
 			if cfg.mw_last { builder.set_rpc_middleware(jsonrpsee_core::middleware::RpcServiceBuilder::new().rpc_logger(1024)).build_with_transport(sender, receiver) } else { builder.build_with_transport(sender, receiver) }
 		} else {
-			let mut builder = ClientBuilder::default();
+			type CB = ClientBuilder;
+			let mut setters: Vec<Box<dyn FnOnce(CB) -> CB>> = vec![Box::new(move |b: CB| b.id_format(id_kind)), Box::new(move |b: CB| b.max_concurrent_requests(mcr)), Box::new(move |b: CB| b.max_buffer_capacity_per_subscription(sbuf))];
 			if cfg.ping {
-				builder = builder.enable_ws_ping(ping_cfg);
+				setters.push(Box::new(move |b: CB| b.enable_ws_ping(ping_cfg)));
 			}
-			let builder = builder.id_format(id_kind).max_concurrent_requests(cfg.max_concurrent_requests).max_buffer_capacity_per_subscription(cfg.sub_buffer.max(1));
+			permute(&mut setters, seed);
+			let mut builder = ClientBuilder::default();
+			for s in setters {
+				builder = s(builder);
+			}
 			if cfg.mw_last { builder.set_rpc_middleware(jsonrpsee_core::middleware::RpcServiceBuilder::new().rpc_logger(1024)).build_with_tokio(sender, receiver) } else { builder.build_with_tokio(sender, receiver) }
 		};
 		MockClient { client: Arc::new(client), shared, to_client: tx, wire_seen: 0 }
